@@ -178,6 +178,15 @@ SyntaxVisitor::Action TypeCanonicalizer::visitAbstractDeclarator(
     return visitDeclarator_COMMON(node);
 }
 
+SyntaxVisitor::Action TypeCanonicalizer::visitBitfieldDeclarator(
+        const BitfieldDeclaratorSyntax* node)
+{
+    // An unnamed bit-field is bound at the bit-field declarator itself.
+    if (!node->innerDeclarator())
+        return visitDeclarator_COMMON(node);
+    return Action::Visit;
+}
+
 const Type* TypeCanonicalizer::canonicalize(const Type* ty, const Scope* scope)
 {
     switch (ty->kind()) {
